@@ -382,7 +382,7 @@ def run(ctx):
                  "the transformed twin of an accepted measurement raises %s: %s" % (type(exc).__name__, str(exc)[:200]),
                  meta, case=cid)
 
-    n_std, n_ext = ctx.n(14, 80), ctx.n(6, 24)
+    n_std, n_ext = ctx.n(14, 80), ctx.n(6, 20)
     for sc in range(n_std + n_ext):
         ext = sc >= n_std       # catalogs with their own extent per patch (props/c13_extents.py), after all the others
         npatch = rng.choice([3, 4]) if not ext else None
@@ -500,14 +500,15 @@ def run(ctx):
             # catalogs with extents of their own: the usual rotation and row shuffle, the relabelling twice (the reversed centre
             # list swaps the order of every patch pair; a drawn permutation), and splits of ANY of the three catalogs - of the
             # largest one into about halves (another catalog becomes the largest: the geometry is taken from elsewhere), of
-            # another one evenly or unevenly; thorough tier: every catalog, even and uneven
+            # another one evenly or unevenly; thorough tier: the third catalog too, and the largest one unevenly
             big = max(cx.CATS, key=lambda c: len(base[c][0]))
             trs = [("rot:random", False, None), ("shuffle", False, None), ("centres:reverse", True, "reverse"), ("centres:random", True, "random")]
             f_big = rng.choice([0.4, 0.5, 0.6])        # about halves: mostly another catalog is the largest of each part's measurement
             other = rng.choice([c for c in cx.CATS if c != big])
             splits = [(big, f_big), (other, rng.choice([0.15, 0.5, 0.85]))]
             if not ctx.quick():
-                splits += [(c, f) for c in cx.CATS for f in (0.15, 0.5, 0.85) if (c, f) not in splits]
+                third = next(c for c in cx.CATS if c not in (big, other))
+                splits += [(third, rng.choice([0.15, 0.5, 0.85])), (big, rng.choice([0.15, 0.85]))]
             trs += [("split:%s:%g" % (c, f), True, (c, f)) for c, f in splits]
 
         for tr, forced, par in trs:
